@@ -229,3 +229,44 @@ pub fn chunk_listings(
     res.sort_by(|a, b| a.id.cmp(&b.id));
     Ok(res)
 }
+
+/// What the VM will run for a finalized template: its own main chunk, the name of the
+/// template whose chunk `render` starts from (the root ancestor, or itself), the block
+/// lineage (block name -> chunks, most derived first), the autoescape flag and the parents.
+pub struct TemplateListing {
+    pub name: String,
+    pub chunk: Listing,
+    pub root: String,
+    pub parents: Vec<String>,
+    pub lineage: Vec<(String, Vec<Listing>)>,
+    pub autoescape: bool,
+}
+
+pub fn template_listing(tera: &crate::Tera, name: &str) -> Option<TemplateListing> {
+    let tpl = tera.get_template(name)?;
+    let mut lineage: Vec<(String, Vec<Listing>)> = tpl
+        .block_lineage
+        .iter()
+        .map(|(k, v)| (k.clone(), v.iter().map(listing).collect()))
+        .collect();
+    lineage.sort_by(|a, b| a.0.cmp(&b.0));
+    Some(TemplateListing {
+        name: tpl.name.clone(),
+        chunk: listing(&tpl.chunk),
+        root: tpl.parents.first().cloned().unwrap_or_else(|| tpl.name.clone()),
+        parents: tpl.parents.clone(),
+        lineage,
+        autoescape: tpl.autoescape_enabled,
+    })
+}
+
+/// Component table of the engine: name -> (defining template, chunk listing).
+pub fn component_listings(tera: &crate::Tera) -> Vec<(String, String, Listing)> {
+    let mut out: Vec<_> = tera
+        .components
+        .iter()
+        .map(|(name, (_, chunk))| (name.clone(), chunk.name.clone(), listing(chunk)))
+        .collect();
+    out.sort_by(|a, b| a.0.cmp(&b.0));
+    out
+}
